@@ -44,6 +44,9 @@ fn lin_of_xyb_inner(px: &[[f32; 3]], w: usize, h: usize) -> Result<Vec<[f32; 3]>
 }
 
 fn emit_io(sh: &mut Shards, ev: &str, extra: &str, w: usize, h: usize, inp: &[[f32; 3]], outs: &[(&str, Result<Vec<[f32; 3]>, &'static str>)], bits: bool) {
+    sh.emit(&io_body(ev, extra, w, h, inp, outs, bits));
+}
+fn io_body(ev: &str, extra: &str, w: usize, h: usize, inp: &[[f32; 3]], outs: &[(&str, Result<Vec<[f32; 3]>, &'static str>)], bits: bool) -> String {
     let mut s = String::new();
     let _ = write!(s, "\"ev\":\"{ev}\",{extra}\"w\":{w},\"h\":{h},\"in\":");
     list(&mut s, inp, px_fx);
@@ -66,7 +69,104 @@ fn emit_io(sh: &mut Shards, ev: &str, extra: &str, w: usize, h: usize, inp: &[[f
         }
     }
     let _ = write!(s, ",\"res\":\"{res}\"");
-    sh.emit(&s);
+    s
+}
+
+/// SCHEDULES (see gen_tf::conc_worker): 8 threads run one family's conversion at the same moment in a fresh process, each
+/// on its own 40,913-pixel image (probed); printed as that family's ordinary events with a "conc" tag.
+pub fn conc_worker(kind: &str, o: &Opts) {
+    use std::sync::{Arc, Barrier};
+    let nthreads = 8usize;
+    let barrier = Arc::new(Barrier::new(nthreads));
+    let (w, h) = (251usize, 163usize);
+    let n = w * h;
+    let kind = kind.to_string();
+    let seed = o.seed;
+    let handles: Vec<_> = (0..nthreads)
+        .map(|j| {
+            let (b, kind) = (barrier.clone(), kind.clone());
+            std::thread::spawn(move || {
+                let mut rng = Rng::new(seed, 0x0c0c_0000 + j as u64);
+                let (lo, hi) = match kind.as_str() {
+                    "xyb" => (0.0f32, 4.0f32),
+                    "prim" => (-0.5, 2.0),
+                    _ => (0.0, 1.0),
+                };
+                let px: Vec<[f32; 3]> = (0..n).map(|i| if i % 11 == 0 { let g = rng.f32_in(lo.max(0.0), hi.min(1.0)); [g, g, g] } else { [rng.f32_in(lo, hi), rng.f32_in(lo, hi), rng.f32_in(lo, hi)] }).collect();
+                let mut idx: Vec<usize> = (0..6).chain(n - 6..n).collect();
+                for _ in 0..16 {
+                    idx.push(rng.below(n as u64) as usize);
+                }
+                idx.sort_unstable();
+                idx.dedup();
+                let sel = |v: &Vec<[f32; 3]>| -> Vec<[f32; 3]> { idx.iter().map(|&i| v[i]).collect() };
+                let inp: Vec<[f32; 3]> = idx.iter().map(|&i| px[i]).collect();
+                let cps = [9u8, 4, 10, 12, 22, 5, 6, 7];
+                let mut out = Vec::new();
+                b.wait();
+                for round in 0..2 {
+                    let extra = format!("\"probe\":1,\"conc\":[{j},{round}],");
+                    let body = match kind.as_str() {
+                        "xyb" => io_body("xyb", &extra, w, h, &inp, &[("out", xyb_of(&px, w, h).map(|v| sel(&v)))], false),
+                        "xybrt" => {
+                            let mid = xyb_of(&px, w, h);
+                            let back = mid.clone().and_then(|m| lin_of_xyb(&m, w, h));
+                            io_body("xybrt", &extra, w, h, &inp, &[("mid", mid.map(|v| sel(&v))), ("back", back.map(|v| sel(&v)))], false)
+                        }
+                        "prim" => {
+                            let c = cps[(j + round) % 8];
+                            let a = if j % 2 == 0 { prim_to709(c, &px, w, h) } else { prim_from709(c, &px, w, h) };
+                            let back = a.clone().and_then(|m| if j % 2 == 0 { prim_from709(c, &m, w, h) } else { prim_to709(c, &m, w, h) });
+                            io_body("prim", &format!("{extra}\"cp\":{c},\"dir\":\"{}\",", if j % 2 == 0 { "to709" } else { "from709" }), w, h, &inp, &[("out", a.map(|v| sel(&v))), ("back", back.map(|v| sel(&v)))], true)
+                        }
+                        _ => {
+                            let mid = hsl_of(&px, w, h);
+                            let back = mid.clone().and_then(|m| lin_of_hsl(&m, w, h));
+                            io_body("hsl", &extra, w, h, &inp, &[("out", mid.map(|v| sel(&v))), ("back", back.map(|v| sel(&v)))], false)
+                        }
+                    };
+                    out.push(body);
+                }
+                out
+            })
+        })
+        .collect();
+    let stdout = std::io::stdout();
+    let mut lock = stdout.lock();
+    use std::io::Write as _;
+    for hd in handles {
+        if let Ok(lines) = hd.join() {
+            for s in lines {
+                let _ = writeln!(lock, "{s}");
+            }
+        } else {
+            let _ = writeln!(lock, "\"ev\":\"{kind}\",\"probe\":1,\"conc\":[-1,0],\"w\":{w},\"h\":{h},\"in\":[],\"res\":\"panic\"");
+        }
+    }
+}
+/// run the concurrent variant of one family in a fresh child process and forward its events
+fn conc_events(sh: &mut Shards, o: &Opts, kind: &str) -> u64 {
+    if o.mini {
+        return 0;
+    }
+    let exe = std::env::current_exe().expect("exe");
+    let mut n = 0;
+    match std::process::Command::new(&exe).args(["concworker", kind, "--seed", &o.seed.to_string()]).stderr(std::process::Stdio::null()).output() {
+        Ok(o2) if o2.status.success() => {
+            for line in String::from_utf8_lossy(&o2.stdout).lines() {
+                if line.starts_with("\"ev\"") {
+                    sh.emit(line);
+                    n += 1;
+                }
+            }
+        }
+        Ok(o2) => {
+            sh.emit(&format!("\"ev\":\"{kind}\",\"probe\":1,\"conc\":[-1,0],\"w\":1,\"h\":1,\"in\":[],\"res\":\"abort:{}\"", o2.status.to_string().replace('"', "'")));
+            n += 1;
+        }
+        Err(_) => {}
+    }
+    n
 }
 
 /// large-image variant of emit_io: the conversion ran on the whole image, only the probed positions are logged
@@ -225,6 +325,7 @@ pub fn gen_c04(sh: &mut Shards, o: &Opts) -> serde_json::Value {
         let img = &echo[at..at + w * h];
         emit_io(sh, "xyb", "\"echo\":1,", w, h, img, &[("out", xyb_of(img, w, h))], false);
     }
+    conc_events(sh, o, "xyb");
     serde_json::json!({"pixels": n + (w * h) as u64, "distinct": n})
 }
 
@@ -272,6 +373,7 @@ pub fn gen_c05(sh: &mut Shards, o: &Opts) -> serde_json::Value {
         let back = mid.clone().and_then(|m| lin_of_xyb(&m, w, h));
         emit_io(sh, "xybrt", "\"echo\":1,", w, h, img, &[("mid", mid), ("back", back)], false);
     }
+    conc_events(sh, o, "xybrt");
     serde_json::json!({"pixels": n + (w * h) as u64, "distinct": n})
 }
 
@@ -396,6 +498,7 @@ pub fn gen_c06(sh: &mut Shards, o: &Opts) -> serde_json::Value {
             }
         }
     }
+    conc_events(sh, o, "prim");
     serde_json::json!({"pixels": n, "primaries_direction_pairs": 22, "distinct": n})
 }
 
@@ -553,6 +656,7 @@ pub fn gen_c17(sh: &mut Shards, o: &Opts) -> serde_json::Value {
         let img = &hs[at..at + w * h];
         emit_io(sh, "hslinv", "", w, h, img, &[("out", lin_of_hsl(img, w, h))], false);
     }
+    conc_events(sh, o, "hsl");
     serde_json::json!({"pixels": n + m, "distinct": n + m})
 }
 
